@@ -154,6 +154,10 @@ type UP4 struct {
 
 	reportNotifyChan chan<- uint64
 	endMarkerChan    chan []byte
+
+	// stateMu serialises the programming of UP4 for different PFCP associations: the
+	// meters, counters and UE address maps above are shared by all of them.
+	stateMu sync.RWMutex
 }
 
 func toUP4ApplicationFilter(p pdr) up4ApplicationFilter {
@@ -538,7 +542,12 @@ func (up4 *UP4) listenToDDNs() {
 			digestData := up4.p4client.GetNextDigestData()
 
 			ueAddr := binary.BigEndian.Uint32(digestData)
-			if fseid, exists := up4.ueAddrToFSEID[ueAddr]; exists {
+
+			up4.stateMu.RLock()
+			fseid, exists := up4.ueAddrToFSEID[ueAddr]
+			up4.stateMu.RUnlock()
+
+			if exists {
 				notifier.Notify(fseid)
 			}
 		}
@@ -1550,6 +1559,9 @@ func (up4 *UP4) sendDelete(deleted PacketForwardingRules) error {
 }
 
 func (up4 *UP4) SendMsgToUPF(method upfMsgType, all PacketForwardingRules, updated PacketForwardingRules) uint8 {
+	up4.stateMu.Lock()
+	defer up4.stateMu.Unlock()
+
 	err := up4.tryConnect()
 	if err != nil {
 		logger.PfcpLog.Errorln("UP4 server not connected")
